@@ -1,7 +1,8 @@
 package lib
 
-// MockCatalogue: schemas generated with generate_mock=true (C20).  Response types are acyclic
-// (cyclic response types make the plugin diverge: C16's finding).
+// MockCatalogue: schemas generated with generate_mock=true (C20).  Recursive response types are
+// included: the generator carries the set of message types being filled and leaves a field whose type
+// is on that path unset (a message-valued map: empty).
 
 func mockReq(id string, enums []*Enum, msgs []*Message, svcs ...*Service) *Request {
 	r := buildReq(id, enums, msgs, svcs...)
@@ -109,13 +110,36 @@ func MockCatalogue() []*Request {
 			M("Empty"),
 		}, svc(id, "Resp", "L2", "Empty"), &Service{Name: "T", BasePath: "/t" + id, HasConfig: true, Methods: []*Method{RPC("Other", q(id, "Req"), q(id, "L3"), "PUT", "/other")}}))
 	}
+	{ // recursive response types: through a singular / optional / repeated field and a map value
+		id := "mrecself"
+		add(mockReq(id, nil, []*Message{req,
+			M("Node", F("v", 1, "string", Examples("n1", "n2")), F("next", 2, "", Msg(q(id, "Node"))), F("maybe", 3, "", Msg(q(id, "Node")), Opt()),
+				F("kids", 4, "", Msg(q(id, "Node")), Rep()), F("by", 5, "", Msg(q(id, "Node")), MapOf("string")), F("n", 6, "int64")),
+			M("Wrap", F("root", 1, "", Msg(q(id, "Node"))), F("title", 2, "string"), F("index", 3, "", Msg(q(id, "Node")), MapOf("int32")))}, svc(id, "Node", "Wrap")))
+		id = "mrecmutual"
+		add(mockReq(id, nil, []*Message{req,
+			M("A", F("b", 1, "", Msg(q(id, "B"))), F("title", 2, "string")),
+			M("B", F("a", 1, "", Msg(q(id, "A"))), F("n", 2, "int64", Examples("5", "6")), F("m", 3, "", Msg(q(id, "A")), MapOf("int32")), F("c", 4, "", Msg(q(id, "C")))),
+			M("C", F("b", 1, "", Msg(q(id, "B"))), F("ok", 2, "bool"), F("self", 3, "", Msg(q(id, "C")), MapOf("string")), F("fresh", 4, "", Msg(q(id, "D")))),
+			M("D", F("note", 1, "string"), F("again", 2, "", Msg(q(id, "D")), MapOf("bool")))}, svc(id, "A", "B", "C")))
+		id = "mrecsibling" // the path is restored after a sub-message: the second field of the same type is filled again
+		add(mockReq(id, nil, []*Message{req,
+			M("Leaf", F("note", 1, "string"), F("up", 2, "", Msg(q(id, "Resp")))),
+			M("Resp", F("left", 1, "", Msg(q(id, "Leaf"))), F("right", 2, "", Msg(q(id, "Leaf"))), F("by", 3, "", Msg(q(id, "Leaf")), MapOf("string")), F("ok", 4, "bool"))}, svc(id, "Resp")))
+		id = "mreconeof" // a oneof member whose type is being filled is skipped (no expression mentions it); another message member is not
+		add(mockReq(id, nil, []*Message{req,
+			M("Expr", F("title", 1, "string"), F("neg", 2, "", Msg(q(id, "Expr")), InOneof("e")), F("lit", 3, "uint32", InOneof("e"))).WithOneofs(&Oneof{Name: "e"})}, svc(id, "Expr")))
+		id = "mreconeofbad"
+		add(mockReq(id, nil, []*Message{req, M("Leaf", F("note", 1, "string")),
+			M("Expr", F("title", 1, "string"), F("neg", 2, "", Msg(q(id, "Expr")), InOneof("e")), F("leaf", 3, "", Msg(q(id, "Leaf")), InOneof("e"))).WithOneofs(&Oneof{Name: "e"})}, svc(id, "Expr")))
+	}
 	return out
 }
 
 // RandomMockRequests: seeded random response types (kind x cardinality x examples) for the mock.
 func RandomMockRequests(rng interface{ Intn(int) int }, n int) []*Request {
 	var out []*Request
-	kinds := []string{"string", "string", "int64", "int64", "bool", "double", "int32", "float", "uint32", "bytes", "enum", "leaf", "leaf", "ts"}
+	kinds := []string{"string", "string", "int64", "int64", "bool", "double", "int32", "float", "uint32", "bytes", "enum", "leaf", "leaf", "ts", "self"}
 	pools := map[string][]string{
 		"string": {"alpha", "beta", "", "x y"}, "int64": {"7", "-3", "abc", "+12", "9223372036854775807", "1_0"}, "int32": {"5"}, "bool": {"true", "0", "F", "yes"},
 		"double": {"1.5", "2e3", "x", "-0.25", "Inf"}, "float": {"1.5"}, "uint32": {"7"}, "bytes": {"abc"}, "enum": {"COLOR_RED"},
@@ -126,6 +150,9 @@ func RandomMockRequests(rng interface{ Intn(int) int }, n int) []*Request {
 		leaf := M("Leaf", F("note", 1, "string"), F("n", 2, "int64"))
 		if rng.Intn(2) == 0 {
 			leaf.Fields[0].Examples = []string{"leafy", "leafier"}
+		}
+		if rng.Intn(3) == 0 { // mutual recursion Resp -> Leaf -> Resp
+			leaf.Fields = append(leaf.Fields, F("back", 3, "", Msg(pkg+".Resp")))
 		}
 		resp := M("Resp")
 		nf := 2 + rng.Intn(5)
@@ -140,6 +167,8 @@ func RandomMockRequests(rng interface{ Intn(int) int }, n int) []*Request {
 				f = F(f.Name, f.Number, "", Msg(pkg+".Leaf"))
 			case "ts":
 				f = F(f.Name, f.Number, "", Msg(Timestamp))
+			case "self":
+				f = F(f.Name, f.Number, "", Msg(pkg+".Resp"))
 			}
 			switch c := rng.Intn(20); {
 			case c < 13:
